@@ -1,4 +1,5 @@
 import PandoraModel.Properties.C06
+import PandoraModel.Properties.C06Kernels
 open Pandora.C06
 #print axioms flags_tied
 #print axioms source_literals
@@ -30,3 +31,18 @@ open Pandora.C06
 #print axioms offgrid_wraparound_counterexample
 #print axioms offgrid_past_end_counterexample
 #print axioms repaired_on_counterexamples
+-- the kernels regenerated from the Python source (Generated/Kernels.lean) are the hand model's methods
+#print axioms Pandora.C06Kernels.vfitMethod_eq
+#print axioms Pandora.C06Kernels.quadraticMethod_eq
+#print axioms Pandora.C06Kernels.kernelMethod_eq
+#print axioms Pandora.C06Kernels.runMethod_eq_kernel
+#print axioms Pandora.C06Kernels.kernel_method_stop
+#print axioms Pandora.C06Kernels.kernel_method_refine
+#print axioms Pandora.C06Kernels.vfitMethod_shift_le_half
+#print axioms Pandora.C06Kernels.quadraticMethod_raises_iff
+#print axioms Pandora.C06Kernels.kernelMethod_total
+#print axioms Pandora.C06Kernels.refinePixelK_eq
+#print axioms Pandora.C06Kernels.loopRefinementK_eq
+#print axioms Pandora.C06Kernels.kernel_pixel_spec
+#print axioms Pandora.C06Kernels.vfitMethod_nan_centre
+#print axioms Pandora.C06Kernels.quadraticMethod_nan_centre
